@@ -53,8 +53,10 @@ def gen_case(rng):
             ops.append("pc peer %d %d" % (i, newtag(rng.random() < 0.3))); c["sent"] += 1
             if rng.random() < 0.15:
                 ops.append("pc peer %d %d" % (i, newtag(False))); c["sent"] += 1        # duplicate reply
-        elif r < 0.33:
+        elif r < 0.31:
             ops.append("pc peer-stray %d %d" % (rng.choice([99, 1000, i + 1, 0x7fffffff]), newtag(False)))
+        elif r < 0.35:
+            ops.append("pc peer-signal %d %d" % (i, newtag(False))); c["sent"] += 1      # not a reply, but it names the call's serial
         elif r < 0.5:
             ops.append("pc pump")
         elif r < 0.72:
